@@ -137,7 +137,9 @@ def drive(a, rng):
                 kw["node_labels"] = {}
             if not withlen:
                 kw["include_branch_lengths"] = False
-            discrete = ts.discrete_time
+            # whether times are discrete is decided here from the columns, not asked of the library: the default precision depends on it
+            mt = tables.mutations.time
+            discrete = bool(all(float(x) == int(x) for x in tables.nodes.time) and all(tskit.is_unknown_time(x) or float(x) == int(x) for x in mt))
             prec_eff = (0 if discrete else 17) if prec is None else prec
             rec = dict(root=root, labels=labels, labelled=labelled, withlen=1 if withlen else 0, prec_effective=prec_eff, raised=0, pre=[], close=1)
             try:
